@@ -12,11 +12,11 @@ LEAN_FILE = 'PncProofs/C07.lean'
 NAMESPACE = 'Props.C07'
 LEAN_CONE = ['PncModel.NcStore', 'PncProofs.C07']
 LEMMA_FILES = []
-REQUIRED_THEOREMS = ['cell_roundtrip', 'var_roundtrip', 'file_roundtrip', 'second_cycle', 'mask_lost_counterexample']
+REQUIRED_THEOREMS = ['cell_roundtrip', 'var_roundtrip', 'file_roundtrip', 'second_cycle', 'mask_lost_counterexample', 'default_fill_counterexample']
 RULE = ('[second cycle] every reopened file (a netcdf-class object whose variables live on disk) is saved and reopened once more and must come back unchanged; ' +
         'random files (1-3 dimensions, optional unlimited first dimension - several unlimited dimensions in NETCDF4 -, 1-5 variables of every dtype the flavour '
         'can store incl. char, rank 0-3, masked variables whose fill is given as fill_value / missing_value / '
-        '_FillValue / both (equal or different), str / float / int / array attributes on variables and file, a '
+        '_FillValue / both (equal or different) / by no attribute at all (netCDF default fill), str / float / int / array attributes on variables and file, a '
         'leading-underscore attribute) x four netCDF flavours x complevel 0/4: save() then pncopen(format=netcdf); '
         'the reopened file (dimensions, attributes with values, variable dtypes, dimension tuples, cells and masks) is '
         'compared with the Lean model of save+reopen and, independently, with the source file itself (oracle); '
@@ -59,10 +59,15 @@ def gen(rng, tier):
                 vs.append(dict(name='C%d' % vi, dt='c', dims=vd, how=None, attrs=[], seed=rng.randrange(1000)))
                 continue
             vd = [nm for nm in names if nm in rng.sample(names, rng.randint(0, nd))]
-            how = rng.choice([None, None, 'fill_value', 'missing_value', '_FillValue', 'both_same', 'both_diff'])
+            how = rng.choice([None, None, 'fill_value', 'missing_value', '_FillValue', 'both_same', 'both_diff', 'nofill'])
+            if how == 'nofill' and dt in 'bB':
+                how = None          # one-byte types have no default fill that is masked on reading
             fv = rng.choice([99, 7, 120] if dt in 'bBHIQ' else [-999, -1, 99, 0, 7])
             vs.append(dict(name='V%d' % vi, dt=dt, dims=vd, how=how, fv=fv, attrs=rng.sample(sorted(VATTRS), rng.randint(0, 3)),
-                           seed=rng.randrange(1000), nmask=rng.randint(0, 2), hit_fill=rng.random() < 0.05))
+                           seed=rng.randrange(1000), nmask=rng.randint(0, 2), hit_fill=rng.random() < 0.05,
+                           # a plain variable without any fill one of whose cells holds netCDF's default fill value of the
+                           # type (a cell never written): read as masked, it has to stay masked through the second cycle
+                           hit_default=(how is None and dt not in 'bB' and rng.random() < 0.25)))
         # the unlimited dimension needs a variable, otherwise netCDF cannot store its length
         for d in dims:
             if d[2] and not any(d[0] in v['dims'] for v in vs):
@@ -121,6 +126,13 @@ def build(case):
             arr = np.ma.masked_array(vals, mask=m)
             if how in ('fill_value', 'both_same', 'both_diff'):
                 var[...] = arr
+            elif how == 'nofill':
+                # masked cells and no attribute that names a fill: netCDF's default fill value of the type stands for them
+                del f.variables[v['name']]
+                var = f.createVariable(v['name'], v['dt'], tuple(v['dims']), values=arr)
+                for a in v['attrs']:
+                    setattr(var, a, _val(VATTRS[a]))
+                continue
             else:
                 # a masked array in a variable created without fill_value
                 f.variables[v['name']] = var = pnc.PseudoNetCDFVariable(f, v['name'], v['dt'], tuple(v['dims']), values=arr)
@@ -132,6 +144,10 @@ def build(case):
             if how == 'both_diff':
                 var.missing_value = np.array(v['fv'] + 1).astype(v['dt'])[()]
         else:
+            if v.get('hit_default') and vals.size:
+                import netCDF4
+                key = np.dtype(v['dt']).str[1:]
+                vals.flat[v['seed'] % vals.size] = netCDF4.default_fillvals[key]
             var[...] = vals
         for a in v['attrs']:
             setattr(var, a, _val(VATTRS[a]))
@@ -184,6 +200,11 @@ def obs(f):
         for a in ('missing_value', 'fill_value', '_FillValue'):
             # `_FillValue` is not listed by PseudoNetCDF's ncattrs(), but the writer looks it up with hasattr
             has = a in v.ncattrs() or (a == '_FillValue' and '_FillValue' in getattr(v, '__dict__', {}))
+            if a == '_FillValue' and not has and isinstance(v, np.ma.MaskedArray) and 'fill_value' not in v.ncattrs():
+                # an in-memory masked variable without a fill attribute: the writer's hasattr(pvar, 'fill_value') finds
+                # numpy's own fill_value (1e20 / 999999 ...), which becomes the disk _FillValue without being an attribute
+                fills.append(_num(np.asarray(v.fill_value).astype(v.dtype)[()]))
+                continue
             fills.append(_num(np.asarray(getattr(v, a))[()]) if has else '_')
         m = np.ma.getmaskarray(arr).ravel().tolist()
         d = np.ma.getdata(arr).ravel().tolist()
@@ -342,7 +363,7 @@ def oracle(case, res):
     a, b = _parse(res['src']), _parse(res['out'])
     a['gattrs'] = lib.show_list([t for t in ([] if a['gattrs'] == '-' else a['gattrs'].split(',')) if not t.startswith('_')])
     # out of domain: an unmasked value equal to a fill value cannot be stored unmasked in netCDF
-    skip = {v['name'] for v in case['vars'] if v.get('hit_fill') and v.get('how')}
+    skip = {v['name'] for v in case['vars'] if (v.get('hit_fill') and v.get('how')) or v.get('hit_default')}
     for k in list(a['vars']):
         if k in skip:
             a['vars'][k]['cells'] = b['vars'].get(k, {}).get('cells')
